@@ -2457,7 +2457,7 @@ Definition answer_ok_b (st : state) (size : N) (ans : answer) : bool :=
 
 Lemma answer_ok_b_sound st size ans : answer_ok_b st size ans = true -> answer_ok st size ans.
 Proof.
-  destruct ans as [[[p u] bytes]|]; [|trivial]. cbn [answer_ok_b answer_ok]. intros H.
+  destruct ans as [[[p u] bytes]|]; [|intros _; exact I]. cbn [answer_ok_b answer_ok]. intros H.
   repeat (apply andb_prop in H as (H & ?)).
   repeat match goal with
          | X : (_ =? _) = true |- _ => apply N.eqb_eq in X
